@@ -53,6 +53,9 @@ def gen_case(seed, i):
             if e["t"] == "f":
                 e["c"]["text"] = 1
     return {"i": i, "cfg": cfg, "world": world.to_json(), "roots": roots, "filter": f,
+            # how each input path is written on the command line (the statistics and the path order must follow the
+            # roots whatever their spelling): absolute, relative to the working directory, ./x, x/, x/../x
+            "spell": [rng.choice(["abs", "abs", "rel", "dot", "slash", "dotdot"]) for _ in roots],
             "min0": rng.random() < 0.25, "outs": [rng.random() < 0.5 for _ in range(4)],
             "fault": rng.choice(["none", "none", "short", "unreadable"]), "seam_seed": rng.randint(1, 10**9)}
 
@@ -224,7 +227,12 @@ def run_case(case):
                     # (written by an earlier run over a bigger tree) - the new report must replace it
                     with open(outp, "wb") as f:
                         f.write(b"# Report by fclones 0.0.0\n" + b"0123456789abcdef0123456789abcdef, 1 B (1 B) * 2:\n    /old/a\n    /old/b\n" * 4000)
-            res = ops.group(rd, roots, args, env=env, seed=case["seam_seed"], plan=plan, now_ns=T0_NS)
+            sroots = []
+            for r_, how in zip(case["roots"], case.get("spell") or ["abs"] * len(case["roots"])):
+                rb = s2b(r_)
+                sroots.append({"abs": os.path.join(rd.wb(), rb), "rel": b"./" + rb if rb.startswith(b"-") else rb, "dot": b"./" + rb, "slash": b"./" + rb + b"/",
+                               "dotdot": b"./" + rb + b"/../" + rb}[how])
+            res = ops.group(rd, sroots, args, env=env, seed=case["seam_seed"], plan=plan, now_ns=T0_NS, cwd=rd.world)
             traces.append(res.trace)
             if res.timed_out:
                 V("terminates", "%s run hung" % fmt)
